@@ -405,6 +405,7 @@ type input struct {
 	Sigs  []string   `json:"sigs,omitempty"`
 	Note  string     `json:"note,omitempty"`
 	Extra [][]string `json:"extra,omitempty"`
+	Steps []histStep `json:"steps,omitempty"` // call history (history.go)
 }
 
 type buildOp struct {
@@ -417,6 +418,105 @@ type buildOp struct {
 type drv struct {
 	c *hx.Ctx
 	p *pool
+}
+
+// ---------- guarded calls into the implementation ----------
+// Every call into ontology goes through hx.Recover: a panic is an oracle failure with the input
+// that caused it and never ends the run.
+
+func safeAddrMulti(ks []keypair.PublicKey, m int) (a common.Address, err error, panicked bool, msg string) {
+	panicked, msg = hx.Recover(func() { a, err = types.AddressFromMultiPubKeys(ks, m) })
+	return
+}
+
+func safeAddrBook(ks []keypair.PublicKey) (a common.Address, err error, panicked bool, msg string) {
+	panicked, msg = hx.Recover(func() { a, err = types.AddressFromBookkeepers(ks) })
+	return
+}
+
+func safeAddrPub(k keypair.PublicKey) (a common.Address, panicked bool, msg string) {
+	panicked, msg = hx.Recover(func() { a = types.AddressFromPubKey(k) })
+	return
+}
+
+func safeProgPub(k keypair.PublicKey) (prog []byte, panicked bool, msg string) {
+	panicked, msg = hx.Recover(func() { prog = append([]byte{}, program.ProgramFromPubKey(k)...) })
+	return
+}
+
+func safeProgMulti(ks []keypair.PublicKey, m int) (prog []byte, err error, panicked bool, msg string) {
+	panicked, msg = hx.Recover(func() {
+		prog, err = program.ProgramFromMultiPubKey(ks, m)
+		prog = append([]byte{}, prog...)
+	})
+	return
+}
+
+func safeParamInfo(prog []byte) (sigs [][]byte, err error, panicked bool, msg string) {
+	panicked, msg = hx.Recover(func() { sigs, err = program.GetParamInfo(prog) })
+	return
+}
+
+func safeDeser(b []byte) (pk keypair.PublicKey, err error, panicked bool, msg string) {
+	panicked, msg = hx.Recover(func() { pk, err = keypair.DeserializePublicKey(b) })
+	return
+}
+
+// guard is the backstop around a whole driver step: whatever still panics (driver or
+// implementation) is reported with the step's input instead of killing the process.
+func (d *drv) guard(class string, in interface{}, f func()) {
+	if p, msg := hx.Recover(f); p {
+		d.c.Fail("panic:"+class, "a driver step panicked", in, msg, "no panic")
+	}
+}
+
+// ---------- independent statement of the scripts and addresses ----------
+// Written from the script format (literal opcode values), not by calling the builder: push of
+// 1..75 bytes = length byte + data, 76..255 = 0x4c len data; PUSH1..PUSH16 = 0x51..0x60;
+// CHECKSIG = 0xac; CHECKMULTISIG = 0xae.
+
+func specPush(out []byte, d []byte) []byte {
+	switch {
+	case len(d) <= 75:
+		out = append(out, byte(len(d)))
+	case len(d) < 256:
+		out = append(out, 0x4c, byte(len(d)))
+	default:
+		out = append(out, 0x4d, byte(len(d)), byte(len(d)>>8))
+	}
+	return append(out, d...)
+}
+
+// specMultiScript: the m-of-n script of a key SET (valid m, n only): keys in sorted order.
+func specMultiScript(ks []*key, m int64) []byte {
+	out := []byte{byte(0x50 + m)}
+	for _, k := range specSorted(ks) {
+		out = specPush(out, k.ser)
+	}
+	return append(out, byte(0x50+len(ks)), 0xae)
+}
+
+// specMultiAddr: the address of the key set, order-free by construction; ok=false when (m, n) is invalid.
+func specMultiAddr(ks []*key, m int64) ([]byte, bool) {
+	if !validParams(m, len(ks)) {
+		return nil, false
+	}
+	return hashH(specMultiScript(ks, m)), true
+}
+
+func specPubAddr(k *key) []byte {
+	if k.ty == uint64(keypair.PK_ETHECDSA) {
+		return keth(k.ser[2:])
+	}
+	return hashH(append(specPush(nil, k.ser), 0xac))
+}
+
+func specBookAddr(ks []*key) ([]byte, bool) {
+	if len(ks) == 1 {
+		return specPubAddr(ks[0]), true
+	}
+	n := len(ks)
+	return specMultiAddr(ks, int64(n-(n-1)/3))
 }
 
 // ---------- ProgramBuilder ----------
@@ -490,7 +590,11 @@ func (d *drv) doBuild(ops []buildOp) {
 		}
 	}
 	if onlyData {
-		got, err := program.GetParamInfo(out)
+		got, err, pp, pmsg := safeParamInfo(out)
+		if pp {
+			c.Fail("panic:GetParamInfo", "parsing a byte string panicked", in, pmsg, nil)
+			return
+		}
 		ok := err == nil && len(got) == len(want)
 		for i := 0; ok && i < len(want); i++ {
 			ok = bytes.Equal(got[i], want[i])
@@ -521,7 +625,11 @@ func (d *drv) doBuildBig(v byte, n int, num uint64) {
 	c.Case(fmt.Sprintf("CBuild %s (Some (%s ++ %s ++ %s))", coqOps(ops), hx.CoqBytes(hdr), rep, hx.CoqBytes(tail)), in)
 	// the parser side: GetParamInfo over the push alone
 	c.Eval()
-	sigs, err := program.GetParamInfo(out[:len(hdr)+n])
+	sigs, err, pp, pmsg := safeParamInfo(out[:len(hdr)+n])
+	if pp {
+		c.Fail("panic:GetParamInfo", "parsing a byte string panicked", in, pmsg, nil)
+		return
+	}
 	if err != nil || len(sigs) != 1 || !bytes.Equal(sigs[0], out[len(hdr):len(hdr)+n]) {
 		c.Fail("push-readback", "a long pushed string does not read back", in, fmt.Sprint(err, len(sigs)), "the pushed string")
 		return
@@ -762,7 +870,14 @@ func (d *drv) doMulti(ks []*key, m int64) {
 			map[string]interface{}{"ok": r.ok, "err": r.err, "m": r.m, "keys": sers(r.keys)}, map[string]interface{}{"m": m, "keys": sers(want)})
 	}
 	// every ordering gives the same script and the same address
-	a0, e0 := types.AddressFromMultiPubKeys(pubs(ks), int(m))
+	a0, e0, pa, pamsg := safeAddrMulti(pubs(ks), int(m))
+	if pa {
+		c.Fail("panic:AddressFromMultiPubKeys", "address derivation panicked", in, pamsg, nil)
+		return
+	}
+	if want, ok := specMultiAddr(ks, m); !ok || e0 != nil || !bytes.Equal(a0[:], want) {
+		c.Fail("wrong-address", "the multi-signature address is not the hash of the sorted m-of-n script", in, a0.ToHexString(), hx.Hex(want))
+	}
 	for t := 0; t < 3; t++ {
 		var perm []*key
 		switch t {
@@ -783,7 +898,11 @@ func (d *drv) doMulti(ks []*key, m int64) {
 			c.Fail("panic:ProgramFromMultiPubKey", "building an m-of-n script panicked", in2, pmsg, nil)
 			continue
 		}
-		a2, ea := types.AddressFromMultiPubKeys(pubs(perm), int(m))
+		a2, ea, pa2, pa2msg := safeAddrMulti(pubs(perm), int(m))
+		if pa2 {
+			c.Fail("panic:AddressFromMultiPubKeys", "address derivation panicked", in2, pa2msg, nil)
+			continue
+		}
 		if e2 != nil || !bytes.Equal(p2, prog) || ea != nil || e0 != nil || a2 != a0 {
 			c.Fail("address-order-dependent", "two orderings of the same key set give different scripts or addresses", in2,
 				map[string]interface{}{"addr1": a0.ToHexString(), "addr2": a2.ToHexString(), "prog1": hx.Hex(prog), "prog2": hx.Hex(p2)}, "equal")
@@ -797,15 +916,21 @@ func (d *drv) doMulti(ks []*key, m int64) {
 
 // rawScript assembles PushNum(m) keys... PushNum(n) CHECKMULTISIG with the exported builder,
 // without the builder's parameter test and without sorting.
-func rawScript(m uint16, ks []*key, n uint16) []byte {
-	b := program.NewProgramBuilder()
-	b.PushNum(m)
-	for _, k := range ks {
-		b.PushBytes(k.ser)
+// Returns nil if the builder panics.
+func rawScript(m uint16, ks []*key, n uint16) (out []byte) {
+	if p, _ := hx.Recover(func() {
+		b := program.NewProgramBuilder()
+		b.PushNum(m)
+		for _, k := range ks {
+			b.PushBytes(k.ser)
+		}
+		b.PushNum(n)
+		b.PushOpCode(neovm.CHECKMULTISIG)
+		out = append([]byte{}, b.Finish()...)
+	}); p {
+		return nil
 	}
-	b.PushNum(n)
-	b.PushOpCode(neovm.CHECKMULTISIG)
-	return append([]byte{}, b.Finish()...)
+	return out
 }
 
 // doRaw: a hand-assembled script declaring (m, n) over the given keys in the given order.
@@ -813,6 +938,10 @@ func (d *drv) doRaw(m uint16, ks []*key, n uint16) {
 	c := d.c
 	prog := rawScript(m, ks, n)
 	in := input{Kind: "raw", Keys: sers(ks), M: int64(m), N: int64(n)}
+	if prog == nil {
+		c.Fail("panic:ProgramBuilder", "assembling a script from serialized keys panicked", in, nil, nil)
+		return
+	}
 	r := d.doInfo(prog, "raw")
 	good := int(n) == len(ks) && validParams(int64(m), len(ks))
 	c.Count(fmt.Sprintf("raw:declared-valid=%v", good))
@@ -880,7 +1009,11 @@ func (d *drv) doParams(sigs [][]byte) {
 	}
 	c.Nontrivial("P" + strings.Join(hs, ","))
 	c.Case(fmt.Sprintf("CParams %s (Some %s)", hx.CoqList(cs), cbPlain(prog)), in)
-	got, err := program.GetParamInfo(prog)
+	got, err, pp, pmsg := safeParamInfo(prog)
+	if pp {
+		c.Fail("panic:GetParamInfo", "parsing a byte string panicked", in, pmsg, nil)
+		return
+	}
 	ok := err == nil && len(got) == len(sigs)
 	for i := 0; ok && i < len(sigs); i++ {
 		ok = bytes.Equal(got[i], sigs[i])
@@ -903,7 +1036,14 @@ func (d *drv) doAddrPub(k *key) {
 		c.Fail("panic:AddressFromPubKey", "address derivation panicked", in, msg, nil)
 		return
 	}
-	prog := program.ProgramFromPubKey(k.pub)
+	prog, pp, pmsg := safeProgPub(k.pub)
+	if pp {
+		c.Fail("panic:ProgramFromPubKey", "building a single-key script panicked", in, pmsg, nil)
+		return
+	}
+	if want := specPubAddr(k); !bytes.Equal(a[:], want) {
+		c.Fail("wrong-address", "the single-key address is not the hash of the key's script", in, a.ToHexString(), hx.Hex(want))
+	}
 	htab := [][2][]byte{{prog, hashH(prog)}}
 	ktab := [][2][]byte{}
 	if len(k.ser) > 2 {
@@ -933,7 +1073,7 @@ func (d *drv) doAddrMulti(ks []*key, m int64, prog []byte, built bool) {
 		if len(ks) <= 8 && m >= 0 && m < 65536 {
 			// decoy: the script over the keys in the given (unsorted) order, with its own hash
 			raw := rawScript(uint16(m), ks, uint16(len(ks)))
-			if !bytes.Equal(raw, prog) {
+			if raw != nil && !bytes.Equal(raw, prog) {
 				htab = append(htab, [2][]byte{raw, hashH(raw)})
 			}
 		}
@@ -954,9 +1094,7 @@ func (d *drv) doAddrBook(ks []*key) {
 	c := d.c
 	c.Eval()
 	in := input{Kind: "addrbook", Keys: sers(ks)}
-	var a common.Address
-	var err error
-	p, msg := hx.Recover(func() { a, err = types.AddressFromBookkeepers(pubs(ks)) })
+	a, err, p, msg := safeAddrBook(pubs(ks))
 	var htab, ktab [][2][]byte
 	// hash table: the scripts for the thresholds next to two thirds (the model has to pick the right one)
 	for m := len(ks)*2/3 - 1; m <= len(ks)*2/3+2; m++ {
@@ -965,8 +1103,9 @@ func (d *drv) doAddrBook(ks []*key) {
 		}
 	}
 	if len(ks) == 1 {
-		pr := program.ProgramFromPubKey(ks[0].pub)
-		htab = append(htab, [2][]byte{pr, hashH(pr)})
+		if pr, pp, _ := safeProgPub(ks[0].pub); !pp {
+			htab = append(htab, [2][]byte{pr, hashH(pr)})
+		}
 		ktab = append(ktab, [2][]byte{ks[0].ser[2:], keth(ks[0].ser[2:])})
 	}
 	c.Count(fmt.Sprintf("addrbook:n<=%d", bucket(len(ks))))
@@ -975,16 +1114,21 @@ func (d *drv) doAddrBook(ks []*key) {
 	switch {
 	case p:
 		c.Count("addrbook:panic")
-		_ = msg
+		c.Fail("panic:AddressFromBookkeepers", "address derivation panicked", in, msg, nil)
 		c.Case(head+" APanic", in)
 	case err != nil:
 		c.Case(head+" AErrParam", in)
 	default:
 		c.Case(fmt.Sprintf("%s (AOk %s)", head, hx.CoqBytes(a[:])), in)
 		// order-free as well
+		if want, ok := specBookAddr(ks); !ok || !bytes.Equal(a[:], want) {
+			c.Fail("wrong-address", "the bookkeeper address is not the address of the two-thirds script of the key set", in, a.ToHexString(), hx.Hex(want))
+		}
 		if len(ks) > 1 {
-			a2, e2 := types.AddressFromBookkeepers(pubs(shuffled(c, ks)))
-			if e2 != nil || a2 != a {
+			a2, e2, p2, m2 := safeAddrBook(pubs(shuffled(c, ks)))
+			if p2 {
+				c.Fail("panic:AddressFromBookkeepers", "address derivation panicked", in, m2, nil)
+			} else if e2 != nil || a2 != a {
 				c.Fail("address-order-dependent", "AddressFromBookkeepers depends on the key order", in, a2.ToHexString(), a.ToHexString())
 			}
 		}
@@ -998,7 +1142,11 @@ func (d *drv) keyHypotheses() {
 	for _, k := range d.p.keys {
 		c.Eval()
 		in := input{Kind: "keyhyp", Keys: []string{hx.Hex(k.ser)}}
-		pk, err := keypair.DeserializePublicKey(k.ser)
+		pk, err, pp, pmsg := safeDeser(k.ser)
+		if pp {
+			c.Fail("panic:DeserializePublicKey", "deserializing a serialized key panicked", in, pmsg, nil)
+			continue
+		}
 		if err != nil {
 			c.Fail("key-roundtrip", "DeserializePublicKey(SerializePublicKey(k)) fails", in, err.Error(), "k")
 			continue
@@ -1094,7 +1242,14 @@ func (d *drv) randNumBytes() []byte {
 }
 
 // crafted assembles a CHECKMULTISIG script from parts that may each be unusual.
-func (d *drv) crafted() []byte {
+func (d *drv) crafted() (out []byte) {
+	if p, _ := hx.Recover(func() { out = d.crafted0() }); p || out == nil {
+		return []byte{byte(neovm.PUSH1), byte(neovm.PUSH1), byte(neovm.CHECKMULTISIG)}
+	}
+	return out
+}
+
+func (d *drv) crafted0() []byte {
 	c := d.c
 	n := []int{0, 1, 2, 2, 3, 3, 4, 5, 2, 3, 6, 8, 16, 17}[c.Intn(14)]
 	ks := d.pick(n, c.Intn(5) == 0)
@@ -1250,9 +1405,9 @@ func (d *drv) randBuildOps() []buildOp {
 func (d *drv) keysFromSers(ss []string) []*key {
 	var out []*key
 	for _, s := range ss {
-		pk, err := keypair.DeserializePublicKey(hx.UnHex(s))
-		if err != nil {
-			panic("replay: bad key " + s + ": " + err.Error())
+		pk, err, pp, _ := safeDeser(hx.UnHex(s))
+		if pp || err != nil {
+			panic(fmt.Sprintf("replay: bad key %s: %v", s, err))
 		}
 		out = append(out, keyOf(pk))
 	}
@@ -1292,6 +1447,21 @@ func (d *drv) replay(in input) {
 		d.doAddrBook(d.keysFromSers(in.Keys))
 	case "keyhyp":
 		d.keyHypotheses()
+	case "history":
+		for i := range in.Steps {
+			in.Steps[i].ks = d.keysFromSers(in.Steps[i].Keys)
+		}
+		d.runSteps(in.Steps, false)
+	case "concurrent":
+		var sets [][]*key
+		var ms []int64
+		for _, e := range in.Extra {
+			var m int64
+			fmt.Sscan(e[0], &m)
+			ms = append(ms, m)
+			sets = append(sets, d.keysFromSers(e[1:]))
+		}
+		d.doConcurrent(sets, ms, in.Note == "reused-buffers")
 	}
 }
 
@@ -1301,7 +1471,7 @@ func Run(c *hx.Ctx) {
 	var rin input
 	if c.ReplayInput(&rin) && rin.Kind != "" {
 		d.p = &pool{byName: map[string]*key{}}
-		d.replay(rin)
+		d.guard("replay", input{Kind: "step", Note: "replay"}, func() { d.replay(rin) })
 		return
 	}
 	d.p = buildPool(c)
@@ -1312,25 +1482,25 @@ func Run(c *hx.Ctx) {
 	for _, raw := range c.CorpusInputs() {
 		var in input
 		if json.Unmarshal(raw, &in) == nil && in.Kind != "" {
-			d.replay(in)
+			d.guard("replay", input{Kind: "step", Note: "replay"}, func() { d.replay(in) })
 		}
 	}
-	d.keyHypotheses()
+	d.guard("keyHypotheses", input{Kind: "step", Note: "keyHypotheses"}, func() { d.keyHypotheses() })
 
 	// 1. every key of the pool alone (all key types)
 	for _, k := range d.p.keys {
-		d.doSingle(k)
+		d.guard("doSingle", input{Kind: "step", Note: "doSingle"}, func() { d.doSingle(k) })
 	}
 	// 2. the builder
 	for i, n := 0, c.N(120, 1200); i < n; i++ {
-		d.doBuild(d.randBuildOps())
+		d.guard("doBuild", input{Kind: "step", Note: "doBuild"}, func() { d.doBuild(d.randBuildOps()) })
 	}
-	d.doBuildBig(byte(c.Intn(256)), 65535, uint64(c.Intn(65536)))
-	d.doBuildBig(byte(c.Intn(256)), 65536+c.Intn(3), uint64(c.Intn(65536)))
+	d.guard("doBuildBig", input{Kind: "step", Note: "doBuildBig"}, func() { d.doBuildBig(byte(c.Intn(256)), 65535, uint64(c.Intn(65536))) })
+	d.guard("doBuildBig", input{Kind: "step", Note: "doBuildBig"}, func() { d.doBuildBig(byte(c.Intn(256)), 65536+c.Intn(3), uint64(c.Intn(65536))) })
 	// 3. sorting, including duplicates, twins and more than 16 keys
 	for i, n := 0, c.N(100, 1000); i < n; i++ {
 		sz := []int{0, 1, 2, 2, 3, 4, 5, 8, 12, 13, 16, 17, 24}[c.Intn(13)]
-		d.doSort(d.pick(sz, c.Intn(3) == 0))
+		d.guard("doSort", input{Kind: "step", Note: "doSort"}, func() { d.doSort(d.pick(sz, c.Intn(3) == 0)) })
 	}
 	// 4. m-of-n: all n in 0..18 with m around the boundaries, then random
 	for n := 0; n <= 18; n++ {
@@ -1339,12 +1509,12 @@ func Run(c *hx.Ctx) {
 			if n > 4 && n < 15 && m != 1 && m != int64(n) && m != 0 && c.Intn(3) != 0 {
 				continue
 			}
-			d.doMulti(ks, m)
+			d.guard("doMulti", input{Kind: "step", Note: "doMulti"}, func() { d.doMulti(ks, m) })
 		}
 	}
 	for i, n := 0, c.N(70, 900); i < n; i++ {
 		sz := 2 + c.Intn(15)
-		d.doMulti(d.pick(sz, c.Intn(6) == 0), int64(1+c.Intn(sz)))
+		d.guard("doMulti", input{Kind: "step", Note: "doMulti"}, func() { d.doMulti(d.pick(sz, c.Intn(6) == 0), int64(1+c.Intn(sz))) })
 	}
 	// 5. hand-assembled scripts declaring (m, n): the grid around the valid region, then random
 	for n := 0; n <= 18; n++ {
@@ -1353,7 +1523,7 @@ func Run(c *hx.Ctx) {
 			if n > 4 && n < 15 && c.Intn(2) == 0 {
 				continue
 			}
-			d.doRaw(uint16(m), ks, uint16(n))
+			d.guard("doRaw", input{Kind: "step", Note: "doRaw"}, func() { d.doRaw(uint16(m), ks, uint16(n)) })
 		}
 	}
 	for i, n := 0, c.N(60, 700); i < n; i++ {
@@ -1367,7 +1537,7 @@ func Run(c *hx.Ctx) {
 		if c.Intn(12) == 0 {
 			m = []int{255, 256, 32768, 65535, 128}[c.Intn(5)]
 		}
-		d.doRaw(uint16(m), ks, uint16(nn))
+		d.guard("doRaw", input{Kind: "step", Note: "doRaw"}, func() { d.doRaw(uint16(m), ks, uint16(nn)) })
 	}
 	// 6. crafted, mutated and random scripts
 	var valid [][]byte
@@ -1376,20 +1546,22 @@ func Run(c *hx.Ctx) {
 		if pr, err, _, _ := buildMulti(d.pick(sz, false), 1+c.Intn(sz)); err == nil {
 			valid = append(valid, pr)
 		}
-		valid = append(valid, program.ProgramFromPubKey(d.p.keys[c.Intn(len(d.p.keys))].pub))
+		if pr, pp, _ := safeProgPub(d.p.keys[c.Intn(len(d.p.keys))].pub); !pp {
+			valid = append(valid, pr)
+		}
 	}
 	for i, n := 0, c.N(330, 4500); i < n; i++ {
 		switch i % 3 {
 		case 0:
-			d.doInfo(d.crafted(), "crafted")
+			d.guard("doInfo", input{Kind: "step", Note: "doInfo"}, func() { d.doInfo(d.crafted(), "crafted") })
 		case 1:
 			pr := d.mutate(valid[c.Intn(len(valid))])
 			if c.Intn(4) == 0 {
 				pr = d.mutate(pr)
 			}
-			d.doInfo(pr, "mutated")
+			d.guard("doInfo", input{Kind: "step", Note: "doInfo"}, func() { d.doInfo(pr, "mutated") })
 		default:
-			d.doInfo(d.randomScript(), "random")
+			d.guard("doInfo", input{Kind: "step", Note: "doInfo"}, func() { d.doInfo(d.randomScript(), "random") })
 		}
 	}
 	// 7. parameter scripts
@@ -1398,27 +1570,31 @@ func Run(c *hx.Ctx) {
 		for j, k := 0, c.Intn(5); j < k; j++ {
 			sigs = append(sigs, d.data([]int{0, 1, 64, 65, 75, 76, 255, 256, 300}[c.Intn(9)]))
 		}
-		d.doParams(sigs)
+		d.guard("doParams", input{Kind: "step", Note: "doParams"}, func() { d.doParams(sigs) })
 	}
 	for i, n := 0, c.N(120, 1500); i < n; i++ {
 		switch i % 3 {
 		case 0:
-			d.doParam(d.randomScript(), "random")
+			d.guard("doParam", input{Kind: "step", Note: "doParam"}, func() { d.doParam(d.randomScript(), "random") })
 		case 1:
-			d.doParam(d.mutate(program.ProgramFromParams([][]byte{d.data(64), d.data(1 + c.Intn(80))})), "mutated")
+			var pr []byte
+			hx.Recover(func() { pr = program.ProgramFromParams([][]byte{d.data(64), d.data(1 + c.Intn(80))}) })
+			d.guard("doParam", input{Kind: "step", Note: "doParam"}, func() { d.doParam(d.mutate(pr), "mutated") })
 		default:
 			b := c.Bytes(c.Intn(12))
 			if len(b) > 0 {
 				b[0] = []byte{0x4c, 0x4d, 0x4e, 1, 2, 75}[c.Intn(6)]
 			}
-			d.doParam(b, "random")
+			d.guard("doParam", input{Kind: "step", Note: "doParam"}, func() { d.doParam(b, "random") })
 		}
 	}
 	// 8. bookkeeper addresses
 	for n := 0; n <= 18; n++ {
-		d.doAddrBook(d.pick(n, false))
+		d.guard("doAddrBook", input{Kind: "step", Note: "doAddrBook"}, func() { d.doAddrBook(d.pick(n, false)) })
 		if n > 0 && n < 8 {
-			d.doAddrBook(d.pick(n, true))
+			d.guard("doAddrBook", input{Kind: "step", Note: "doAddrBook"}, func() { d.doAddrBook(d.pick(n, true)) })
 		}
 	}
+	// 9. call histories: results must not depend on earlier calls or on slice reuse
+	d.guard("doHistories", input{Kind: "step", Note: "doHistories"}, func() { d.doHistories() })
 }
